@@ -332,7 +332,8 @@ option features.field_presence = IMPLICIT;
 message A {
   int32 a = 1 [features.field_presence = EXPLICIT, default = 3];
   A b = 2 [features.message_encoding = DELIMITED];
-  extensions 10 to 20, 30 to 40 [declaration = { number: 10 full_name: ".extras.ed.x" type: "int32" }, verification = DECLARATION];
+  extensions 10 to 20 [declaration = { number: 10 full_name: ".extras.ed.x" type: "int32" }, verification = DECLARATION];
+  extensions 30 to 40, 45, 47 to 49 [verification = UNVERIFIED];
   reserved r1, r2; reserved 50 to 60, 70;
   enum En { option features.enum_type = CLOSED; X = 1; reserved RX; reserved 5 to 9; }
   oneof oo { string s = 3; bytes t = 4; }
@@ -449,8 +450,8 @@ func TestC24(t *testing.T) {
 
 	type job struct {
 		id, name, text string
-		src           map[string]string // nil = parse-only (corpus)
-		deps          []string
+		src            map[string]string // nil = parse-only (corpus)
+		deps           []string
 	}
 	var jobs []job
 	// corpus sources: structural checks only
